@@ -201,12 +201,30 @@ def cond_fn(name, params, body, pre=(), consts=None):
     The source is registered with linecache so that CrossHair can read the contract."""
     import linecache
     import typing
+    import re
     params = list(params) or [('unused_', 'bool')]
+    # Tuple[...] parameters are expanded into scalar parameters: CrossHair forks on the
+    # possible *subtypes* of every element of a typed tuple (bool, IntEnum ... for int),
+    # which multiplies paths by ~25 per element without adding anything to the claim.
+    flat = []
+    groups = {}
+    pre = list(pre)
+    for n, t in params:
+        m = re.match(r'^Tuple\[(.*)\]$', t.strip())
+        if not m:
+            flat.append((n, t))
+            continue
+        elts = [e.strip() for e in m.group(1).split(',')]
+        names_ = ['%s_%d' % (n, i) for i in range(len(elts))]
+        groups[n] = names_
+        flat.extend(zip(names_, elts))
+        tup = '(' + ', '.join(names_) + ',)'
+        pre = [re.sub(r'\b%s\b' % re.escape(n), tup, pc) for pc in pre]
     _GEN_COUNT[0] += 1
     fname = '<vf-cond-%s-%d>' % (name, _GEN_COUNT[0])
-    sig = ', '.join('%s: %s' % (n, t) for n, t in params)
-    names = ', '.join(repr(n) for n, _ in params)
-    vals = ', '.join(n for n, _ in params)
+    sig = ', '.join('%s: %s' % (n, t) for n, t in flat)
+    names = ', '.join(repr(n) for n, _ in flat)
+    vals = ', '.join(n for n, _ in flat)
     lines = ['def %s(%s) -> bool:' % (name, sig), '    """']
     for pc in pre:
         lines.append('    pre: ' + pc)
@@ -219,6 +237,8 @@ def cond_fn(name, params, body, pre=(), consts=None):
     def runner(cname, keys, values):
         with ch.NoTracing():
             I = dict(zip(keys, values))
+            for gname, members in groups.items():
+                I[gname] = tuple(I.pop(m_) for m_ in members)
             I.update(consts)
         return H.run(cname, I, body)
     import sys
